@@ -122,7 +122,12 @@ impl TypeEntry {
             }
             TypeEntryDetails::Tuple(types) => {
                 let tup = value_for_tuple(type_space, value, types, scope)?;
-                quote! { ( #( #tup ),* )}
+                if types.len() != 1 {
+                    quote! { ( #( #tup ),* )}
+                } else {
+                    // A single-item tuple requires a trailing comma.
+                    quote! { ( #( #tup, )* )}
+                }
             }
             TypeEntryDetails::Array(type_id, _) => {
                 let arr = value.as_array()?;
